@@ -70,6 +70,23 @@ class Stale(Monitor):
     def on_trash(self, scheduler, handler):
         self.snapshots.pop(handler, None)
 
+    def on_get(self, scheduler, handler):
+        # the event that fires must be the live candidate of its handler: if another pending candidate is strictly
+        # earlier in the shadow scheduler, what fired is an older (trashed) entry of this handler, i.e. a candidate
+        # computed from an in-state that is no longer the one on record
+        ctx = self.ctx
+        if ctx.kind(handler) not in KINDS:
+            return
+        mine = ctx.pending.get(handler)
+        if mine is None:
+            ctx.violation("C08", "trashed_candidate_fired", {"handler": handler.__class__.__name__,
+                                                             "tag": ctx.tag_of(handler)})
+        best = min((t.quotient, t.remainder) for t in ctx.pending.values())
+        if (mine.quotient, mine.remainder) > best:
+            ctx.violation("C08", "fired_event_is_not_the_live_candidate_of_its_handler",
+                          {"handler": handler.__class__.__name__, "tag": ctx.tag_of(handler),
+                           "live_candidate_time": (mine.quotient, mine.remainder), "earliest_pending": best})
+
     def on_insert_end(self, state_handler, out_state):
         # probe only (a lazily trashing design would still satisfy the property): stale candidates left pending
         ctx = self.ctx
